@@ -166,10 +166,14 @@ def check_instance(res: Result, cls: type, inst: object, rebuild, perturb, snaps
             bad(f"copy-same-object:{how.split()[0]}", f"{how} returned the original object instead of a new one")
         else:
             try:
-                if hash(c) != hash(inst):
-                    bad(f"copy-hash:{how.split()[0]}", f"{how} produced an object with a different hash")
+                h0 = hash(inst)
             except TypeError:
-                pass
+                continue  # (the original is not hashable: reported elsewhere)
+            try:
+                if hash(c) != h0:
+                    bad(f"copy-hash:{how.split()[0]}", f"{how} produced an object with a different hash")
+            except TypeError as exc:
+                bad(f"copy-unhashable:{how.split()[0]}", f"{how} produced an equal object that cannot be hashed: {exc!r}")
     if snapshot(inst) != before:
         bad("original-changed", "the original changed while being copied/replaced/pickled")
 
@@ -296,6 +300,18 @@ def c15_worker(res: Result, i: int, n: int) -> None:
                 else:
                     check_instance(res, cls, dec, lambda b=buf.getvalue(): entity_reader(cls)(io.BytesIO(b)), lambda: [], snap, ops, "decoded")
                     res.count("decoded_instances")
+            if k % 3 == 1 or k < nhuge:
+                # the io module's own stream types (code may single them out with isinstance): a BufferedReader over a raw stream
+                try:
+                    from .faults import _EndedRaw
+
+                    raw = refcodec.encode_bytes(spec, tree)
+                    dec3 = entity_reader(cls)(io.BufferedReader(_EndedRaw(raw), buffer_size=rng.choice((64, 8192))))
+                except Exception:  # noqa: BLE001
+                    res.count("buffered_reader_decode_failed_skipped")
+                else:
+                    res.count("buffered_reader_decoded")
+                    check_instance(res, cls, dec3, lambda b=raw: entity_reader(cls)(io.BytesIO(b)), lambda: [], snap, ops, "decoded from an io.BufferedReader")
             if k % 3 == 0 or k < nhuge:
                 # a raw, unbuffered stream hands out fewer bytes than asked for; kio may refuse that (BufferUnderflow), but if it
                 # does produce an entity, that entity must be a proper value object as well
